@@ -342,7 +342,9 @@ fn run_program<P: Val>(s: &mut Src) {
                     std::process::abort();
                 }
                 drop(h);
-                if let Op::PanicDesync = op {
+                // (the same goes for a sync() whose closure panicked on the pool thread that ran it for this caller: this caller is
+                // released as soon as the job is discarded, which is before the panic has finished unwinding on that thread)
+                if let Op::PanicDesync | Op::PanicSync = op {
                     if pool > 0 {
                         // the job panics on a pool thread at some unknown later time: a call that is in flight on the object at
                         // that moment may wait forever (no property covers it), so this thread stops using the object
